@@ -7,11 +7,13 @@ use routecore::bgp::aspath::{AsPath, Hop, HopPath};
 use routecore::bgp::communities::{Community, LargeCommunity, StandardCommunity, Wellknown};
 use routecore::bgp::message::update_builder::StandardCommunitiesList;
 use routecore::bgp::message::SessionConfig;
+use routecore::bgp::message::update::FourOctetAsns;
 use routecore::bgp::message::UpdateMessage as BgpUpdateMessage;
 use routecore::bgp::nlri::afisafi::IsPrefix;
 use routecore::bgp::path_attributes::LargeCommunitiesList;
 use routecore::bmp::message::PerPeerHeader;
 use routecore::bmp::message::{Message as BmpMsg, MessageType as BmpMsgType};
+use routecore::bmp::message::RouteMonitoring;
 
 use roto::{Context, roto_method, roto_function};
 
@@ -422,7 +424,7 @@ pub fn create_runtime() -> Result<roto::Runtime, String> {
         let msg = unsafe { &*msg };
 
         let update = if let BmpMsg::RouteMonitoring(rm) = msg {
-            if let Ok(upd) = rm.bgp_update(&SessionConfig::modern()) {
+            if let Ok(upd) = rm.bgp_update(&session_config_for(rm)) {
                 upd
             } else {
                 // log error?
@@ -444,7 +446,7 @@ pub fn create_runtime() -> Result<roto::Runtime, String> {
         let msg = unsafe { &*msg };
 
         let update = if let BmpMsg::RouteMonitoring(rm) = msg {
-            if let Ok(upd) = rm.bgp_update(&SessionConfig::modern()) {
+            if let Ok(upd) = rm.bgp_update(&session_config_for(rm)) {
                 upd
             } else {
                 // log error?
@@ -467,7 +469,7 @@ pub fn create_runtime() -> Result<roto::Runtime, String> {
         let to_match = unsafe { &*to_match };
 
         let update = if let BmpMsg::RouteMonitoring(rm) = msg {
-            if let Ok(upd) = rm.bgp_update(&SessionConfig::modern()) {
+            if let Ok(upd) = rm.bgp_update(&session_config_for(rm)) {
                 upd
             } else {
                 // log error
@@ -490,7 +492,7 @@ pub fn create_runtime() -> Result<roto::Runtime, String> {
         let to_match = unsafe { &*to_match };
 
         let update = if let BmpMsg::RouteMonitoring(rm) = msg {
-            if let Ok(upd) = rm.bgp_update(&SessionConfig::modern()) {
+            if let Ok(upd) = rm.bgp_update(&session_config_for(rm)) {
                 upd
             } else {
                 // log error
@@ -509,7 +511,7 @@ pub fn create_runtime() -> Result<roto::Runtime, String> {
         let msg = unsafe { &*msg };
 
         let update = if let BmpMsg::RouteMonitoring(rm) = msg {
-            if let Ok(upd) = rm.bgp_update(&SessionConfig::modern()) {
+            if let Ok(upd) = rm.bgp_update(&session_config_for(rm)) {
                 upd
             } else {
                 // log error
@@ -529,7 +531,7 @@ pub fn create_runtime() -> Result<roto::Runtime, String> {
     ) -> u32 {
         let msg = unsafe { &*msg };
         if let BmpMsg::RouteMonitoring(rm) = msg {
-            if let Ok(upd) = rm.bgp_update(&SessionConfig::modern()) {
+            if let Ok(upd) = rm.bgp_update(&session_config_for(rm)) {
                 return announcements_count(&upd);
             } else {
                 // log error
@@ -544,7 +546,7 @@ pub fn create_runtime() -> Result<roto::Runtime, String> {
     fn bmp_withdrawals_count(msg: *const BmpMsg<Bytes>) -> u32 {
         let msg = unsafe { &*msg };
         if let BmpMsg::RouteMonitoring(rm) = msg {
-            if let Ok(upd) = rm.bgp_update(&SessionConfig::modern()) {
+            if let Ok(upd) = rm.bgp_update(&session_config_for(rm)) {
                 return withdrawals_count(&upd);
             } else {
                 // log error
@@ -560,7 +562,7 @@ pub fn create_runtime() -> Result<roto::Runtime, String> {
         let msg = unsafe { &*msg };
 
         let update = if let BmpMsg::RouteMonitoring(rm) = msg {
-            if let Ok(upd) = rm.bgp_update(&SessionConfig::modern()) {
+            if let Ok(upd) = rm.bgp_update(&session_config_for(rm)) {
                 upd
             } else {
                 // log error
@@ -579,7 +581,7 @@ pub fn create_runtime() -> Result<roto::Runtime, String> {
         let msg = unsafe { &*msg };
 
         let update = if let BmpMsg::RouteMonitoring(rm) = msg {
-            if let Ok(upd) = rm.bgp_update(&SessionConfig::modern()) {
+            if let Ok(upd) = rm.bgp_update(&session_config_for(rm)) {
                 upd
             } else {
                 // log error
@@ -598,7 +600,7 @@ pub fn create_runtime() -> Result<roto::Runtime, String> {
         let msg = unsafe { &*msg };
 
         let update = if let BmpMsg::RouteMonitoring(rm) = msg {
-            if let Ok(upd) = rm.bgp_update(&SessionConfig::modern()) {
+            if let Ok(upd) = rm.bgp_update(&session_config_for(rm)) {
                 upd
             } else {
                 // log error
@@ -617,7 +619,7 @@ pub fn create_runtime() -> Result<roto::Runtime, String> {
         let msg = unsafe { &*msg };
 
         let update = if let BmpMsg::RouteMonitoring(rm) = msg {
-            if let Ok(upd) = rm.bgp_update(&SessionConfig::modern()) {
+            if let Ok(upd) = rm.bgp_update(&session_config_for(rm)) {
                 upd
             } else {
                 // log error
@@ -734,7 +736,7 @@ pub fn create_runtime() -> Result<roto::Runtime, String> {
         let msg = unsafe { &*msg };
 
         if let BmpMsg::RouteMonitoring(rm) = msg {
-            if let Ok(upd) = rm.bgp_update(&SessionConfig::modern()) {
+            if let Ok(upd) = rm.bgp_update(&session_config_for(rm)) {
                 if let Some(asn) = upd.aspath().ok().flatten()
                     .and_then(|asp| asp.origin())
                     .and_then(|asp| asp.try_into_asn().ok()) {
@@ -769,7 +771,7 @@ pub fn create_runtime() -> Result<roto::Runtime, String> {
         let entry = unsafe { &mut **entry_ptr };
         let msg = unsafe { &*msg };
         if let BmpMsg::RouteMonitoring(rm) = msg {
-            if let Ok(upd) = rm.bgp_update(&SessionConfig::modern()) {
+            if let Ok(upd) = rm.bgp_update(&session_config_for(rm)) {
                 let cnt = upd.aspath().ok().flatten().map(|asp|
                     asp.hops().count()
                 );
@@ -789,7 +791,7 @@ pub fn create_runtime() -> Result<roto::Runtime, String> {
         let entry = unsafe { &mut **entry_ptr };
         let msg = unsafe { &*msg };
         if let BmpMsg::RouteMonitoring(rm) = msg {
-            if let Ok(upd) = rm.bgp_update(&SessionConfig::modern()) {
+            if let Ok(upd) = rm.bgp_update(&session_config_for(rm)) {
                 let cnt = upd.conventional_announcements()
                     .ok()
                     .map(|iter| iter.count())
@@ -809,7 +811,7 @@ pub fn create_runtime() -> Result<roto::Runtime, String> {
         let entry = unsafe { &mut **entry_ptr };
         let msg = unsafe { &*msg };
         if let BmpMsg::RouteMonitoring(rm) = msg {
-            if let Ok(upd) = rm.bgp_update(&SessionConfig::modern()) {
+            if let Ok(upd) = rm.bgp_update(&session_config_for(rm)) {
                 let cnt = upd.conventional_withdrawals()
                     .ok()
                     .map(|iter| iter.count())
@@ -829,7 +831,7 @@ pub fn create_runtime() -> Result<roto::Runtime, String> {
         let entry = unsafe { &mut **entry_ptr };
         let msg = unsafe { &*msg };
         if let BmpMsg::RouteMonitoring(rm) = msg {
-            if let Ok(upd) = rm.bgp_update(&SessionConfig::modern()) {
+            if let Ok(upd) = rm.bgp_update(&session_config_for(rm)) {
                 if let Some(iter) = upd.mp_announcements().ok().flatten() {
                     entry.mp_reach_afisafi = Some(iter.afi_safi());
                     entry.mp_reach = Some(iter.count());
@@ -848,7 +850,7 @@ pub fn create_runtime() -> Result<roto::Runtime, String> {
         let entry = unsafe { &mut **entry_ptr };
         let msg = unsafe { &*msg };
         if let BmpMsg::RouteMonitoring(rm) = msg {
-            if let Ok(upd) = rm.bgp_update(&SessionConfig::modern()) {
+            if let Ok(upd) = rm.bgp_update(&session_config_for(rm)) {
                 if let Some(iter) = upd.mp_withdrawals().ok().flatten() {
                     entry.mp_unreach_afisafi = Some(iter.afi_safi());
                     entry.mp_unreach = Some(iter.count());
@@ -870,7 +872,7 @@ pub fn create_runtime() -> Result<roto::Runtime, String> {
         if let BmpMsg::RouteMonitoring(rm) = msg {
             let asn = rm.per_peer_header().asn();
             entry.peer_as = Some(asn);
-            if let Ok(upd) = rm.bgp_update(&SessionConfig::modern()) {
+            if let Ok(upd) = rm.bgp_update(&session_config_for(rm)) {
                 if let Some(asp) = upd.aspath().ok().flatten() {
                     entry.as_path_hops = Some(asp.hops().count());
                     entry.origin_as = asp.hops().last()
@@ -954,6 +956,22 @@ pub fn create_runtime() -> Result<roto::Runtime, String> {
     )?;
 
     Ok(rt)
+}
+
+//------------ BMP helpers ----------------------------------------------------
+
+/// The `SessionConfig` to parse the BGP UPDATE in a RouteMonitoring message.
+///
+/// The A flag in the Per Peer Header tells whether the encapsulated PDU uses
+/// the legacy 2-byte AS_PATH format (RFC 7854, section 4.2). This is the same
+/// source the BMP state machine uses (`pph_session_config`), so the filter
+/// methods see the same AS_PATH as the rest of Rotonda.
+fn session_config_for(rm: &RouteMonitoring<Bytes>) -> SessionConfig {
+    let mut config = SessionConfig::modern();
+    if rm.per_peer_header().is_legacy_format() {
+        config.set_four_octet_asns(FourOctetAsns(false));
+    }
+    config
 }
 
 //------------ Path Attributes helpers ----------------------------------------
